@@ -7,10 +7,25 @@ import re
 F = []
 
 
+# proposed patches that have become `fix:` commits in /repo.  A fixed entry suppresses nothing: if the
+# defect returns the check reports a VIOLATION again (the matcher is kept for the record only).
+FIXED = {
+    "notes/C04-fix-1.diff": "a9e351b",      # MeanSquaredScaledError keeps its sp argument
+    "notes/C04-fix-2.diff": "2cb5351",      # ColumnEnsembleClassifier keeps its remainder argument
+    "notes/C04-fix-3.diff": "b269f92",      # update_predict checks the fitted state first
+    "notes/C04-fix-4.diff": "2056000",      # Detrender.update checks the fitted state first
+    "notes/C04-fix-6.diff": "053224d",      # Rocket transformers store random_state as passed
+    "notes/C04-fix-8.diff": "f4dd56b",      # ContractableBOSS.fit no longer overwrites its parameters
+}
+
+
 def add(what, match, fix=None):
     e = {"id": "F-C04-%d" % (len(F) + 1), "property": "C04", "status": "open", "what": what, "match": match}
     if fix:
         e["proposed_fix"] = fix
+        if fix in FIXED:
+            e["status"] = "fixed"
+            e["commit"] = FIXED[fix]
     F.append(e)
 
 
@@ -156,4 +171,5 @@ add("ColumnEnsembleClassifier.set_params(estimators=L, <component or component__
      "where": {"colens_list_with_other": True, "tree.cls": "ColumnEnsembleClassifier"}}, "notes/C04-fix-9.diff")
 
 json.dump(F, open("/verif/findings.d/C04.json", "w"), indent=1)
-print(len(F))
+print(len(F), "entries,", sum(1 for f in F if f["status"] == "open"), "open,",
+      sum(1 for f in F if f["status"] == "fixed"), "fixed")
